@@ -32,10 +32,17 @@ ImplAfter(r) ==
           IF d[k] = 0 THEN "absent"
           ELSE IF cd[k][d[k]] = "intact" THEN "intact" ELSE "cand:" \o cd[k][d[k]]]
 
+\* v2 / hybrid: per file the first same-sized candidate whose root matches (FindMatches!MatchV2)
+ImplAfterV2(r) ==
+    [f \in DOMAIN r.files |->
+        LET cs == r.files[f].cands
+            k == FM16!FirstV2(r.files[f].length, cs)
+        IN IF k = 0 THEN "absent" ELSE IF cs[k] = "intact" THEN "intact" ELSE "cand:" \o cs[k]]
+
 Clause(r, c) ==
-  CASE c = "M13.impl" -> r.status # "ok" \/ r.version # 1 \/ r.P \notin {2, 16384, 32768} \/ r.ntorrents # 1 \/ r.runs # 1
+  CASE c = "M13.impl" -> r.status # "ok" \/ r.P \notin {2, 16384, 32768} \/ r.ntorrents # 1 \/ r.runs # 1
                          \/ (\E k \in DOMAIN r.files : r.files[k].dest_pre # "absent")
-                         \/ [k \in DOMAIN r.files |-> r.files[k].after] = ImplAfter(r)
+                         \/ [k \in DOMAIN r.files |-> r.files[k].after] = (IF r.version = 1 THEN ImplAfter(r) ELSE ImplAfterV2(r))
     [] c = "C13.complete" -> r.status = "ok" /\ Complete(r.files)
     \* every counted file is present afterwards: a file can be counted once per time its metafile was
     \* given (r.files[k].given; 1 unless the caller names the same metafile twice), and only if present
